@@ -77,18 +77,69 @@ def compare(a, b, c):
     return None
 
 
+def short_schedules():
+    """schedules that stop inside the termination tolerance (last beta in (1 - 1e-4, 1)): the likelihood scale is solved for from the
+    seeded prior draws (which do not depend on the likelihood) so that the first annealing step crosses the ESS target at 1 - 3e-5"""
+    def mk(scale, c, seed):
+        s = tempest.Sampler(lambda u: 2.0 * u - 1.0, lambda x: -scale * float(np.sum((x - 0.25) ** 2)) + c, n_dim=2, n_particles=64,
+                            random_state=seed, output_dir=tempfile.mkdtemp(prefix="out_", dir=BASE))
+        return s
+
+    def ess_of(lw):
+        w = np.exp(lw - lw.max())
+        return w.sum() ** 2 / (w ** 2).sum()
+    n_short = 0
+    for seed in (5, 11):
+        probe = mk(1.0, 0.0, seed)
+        probe.run(n_total=64, progress=False)
+        beta = np.asarray(probe.state.get_history("beta"), dtype=float)
+        x = np.concatenate([probe.state.get_history("x", index=t) for t in range(int(np.sum(beta == 0.0)))])
+        g = -np.sum((x - 0.25) ** 2, axis=1)
+        target = probe._core.config.ess_ratio * 64 if hasattr(probe, "_core") else 64.0
+        lo, hi = 0.0, 1e4
+        if not (ess_of(hi * g) < target <= ess_of(lo * g)):
+            continue
+        for _ in range(200):
+            mid = 0.5 * (lo + hi)
+            lo, hi = (mid, hi) if ess_of(mid * g) >= target else (lo, mid)
+        scale = 0.5 * (lo + hi) / (1.0 - 3e-5)
+        for c in (1000.0, -1000.0):
+            out = []
+            for cc in (0.0, c):
+                s = mk(scale, cc, seed)
+                s.run(n_total=100, progress=False)
+                st = s.state
+                out.append(dict(beta=np.array(st.get_history("beta")), logz=np.array(st.get_history("logz")), ess=np.array(st.get_history("ess")),
+                                u=st.get_history("u", flat=True), logl=st.get_history("logl", flat=True), final=s.evidence()[0]))
+            if out[0]["beta"][-1] < 1.0:
+                n_short += 1
+            r = compare(out[0], out[1], c)
+            if r:
+                return f"schedule ending at beta = {out[0]['beta'][-1]!r} (inside the termination tolerance), c = {c}: {r}", {"seed": seed, "scale": scale, "c": c}
+    return None, {"short_schedules": n_short}
+
+
 def main():
     p = json.load(open(sys.argv[1]))
     tried = 0
+    try:
+        r, info = short_schedules()
+    except Exception as e:
+        r, info = f"short-schedule scenario raised {type(e).__name__}: {e}", {}
+    if r:
+        print(json.dumps({"reproduced": True, "tried": 1, "input": info, "detail": r}))
+        return
     lattice = [dict(), dict(sample="rwm"), dict(resample="syst"), dict(clustering=False), dict(volume_variation=0.5),
                dict(sample="rwm", resample="syst", clustering=False), dict(vectorize=True), dict(cluster_every=2),
                dict(volume_variation=0.03, n_particles=64), dict(volume_variation=0.1, n_particles=48, sample="rwm"),
-               dict(blobs_dtype="float32"), dict(blobs_dtype="float64", resample="syst")]
+               dict(blobs_dtype="float32"), dict(blobs_dtype="float64", resample="syst"), dict(pool=2), dict(pool=3, sample="rwm", clustering=False)]
     shifts = [3.0, -250.0, 1000.0, -1000.0]
     cwd = os.getcwd()
     os.chdir(tempfile.mkdtemp(prefix="cwd_", dir=BASE))
     try:
         for opts, c in itertools.product(lattice, shifts):
+            if "pool" in opts and c not in (3.0, -1000.0):
+                continue
             tried += 1
             try:
                 a = run(0.0, 11, opts, 96)
